@@ -68,8 +68,14 @@ def gen_c09_stack(rng):
     if container in ("concat", "concat_shared") and rng.random() < 0.5:
         over = [rng.choice([{"t": "xtw", "transform": {"t": "leaf", "name": "KDAdditiveUniformNoise"}}, {"t": "labelsmooth", "s": 0.0},
                             {"t": "xtw", "transform": {"t": "leaf", "name": "KDRandomHorizontalFlip"}}])]
+    via = container is None and not mv and rng.random() < 0.2
+    # environment fault: the hook of one (outer) member fails in some or all workers - a loader that dies loudly is fine, a loader
+    # that carries on must still have given every stochastic member its own stream
+    hook_fault = None
+    if not mv and container in (None, "interleaved") and rng.random() < 0.12:
+        hook_fault = rng.choice([None, None, [0], [1]]) or "all"
     return {"root": {"kind": "tensor", "n": n}, "layers": layers, "collators": collators, "container": container, "over": over,
-            "via_interleaved_sampler": container is None and not mv and rng.random() < 0.2}
+            "via_interleaved_sampler": via, "hook_fault": hook_fault}
 
 
 def build_c09(stack, mode, return_ctx):
@@ -97,6 +103,10 @@ def build_c09(stack, mode, return_ctx):
             ds = W.KDMixWrapper(ds, mixup_p=layer["p"], mixup_alpha=layer["alpha"])
         else:
             ds = S.apply_layer(ds, layer)
+    if stack.get("hook_fault"):
+        from .simdata import FaultyHookTransform
+        hf = stack["hook_fault"]
+        ds = W.XTransformWrapper(ds, FaultyHookTransform(None if hf == "all" else set(hf)))
     if stack["container"] == "concat":
         other = W.XTransformWrapper(RootDataset("tensor", 3), C.build({"t": "leaf", "name": "KDAdditiveGaussianNoise"}))
         ds = KDConcatDataset([ds, other])
@@ -233,6 +243,8 @@ class Spec(core.PropSpec):
             yield dict(plan, clobbers=[None] * 4)
         if plan.get("main_hook_rank") is not None:
             yield dict(plan, main_hook_rank=None)
+        if plan["stack"].get("hook_fault"):
+            yield dict(plan, stack=dict(plan["stack"], hook_fault=None))
 
     # ---------------------------------------------------------------------------------------------------------
     def execute(self, plan):
@@ -343,10 +355,25 @@ class Spec(core.PropSpec):
                 run_epoch(beta, plan["clobbers"][i])
             again = run_epoch(plan["betas"][0], plan["clobbers"][3] or ["np", 4242])
         except Exception as e:
+            from .simdata import InjectedReadError
+            chain, cur = [], e
+            while cur is not None and len(chain) < 8:
+                chain.append(cur)
+                cur = cur.__cause__ or cur.__context__
+            if stack.get("hook_fault") and plan["hook"] and (any(isinstance(c, InjectedReadError) for c in chain) or "injected: resource" in str(e)):
+                # the loader died loudly with the injected error: an epoch lost to the environment, nothing silently wrong
+                out.count("fault:worker_hook_failure_loud")
+                out.ev("hook-failure-loud", len(sessions))
+                out.tags.append("hook-fault")
+                out.nontrivial = plan["K"] >= 1
+                return out
             site = self._owner_from_exc(e)
             out.violate(f"C09:raises:{type(e).__name__}", site, f"stack={self._sig(stack)}: {type(e).__name__}: {e}")
             out.ev("raised", type(e).__name__)
             return out
+        if stack.get("hook_fault") and plan["hook"]:
+            out.count("fault:worker_hook_failure_survived")  # e.g. the failing rank does not exist with this worker count
+            out.tags.append("hook-fault-survived")
         first3 = sessions[:3]
         out.ev("sessions", [[s["beta"], s["sched"], s["delivered"], {str(w): {p: core.digest(list(fp))[:8] for p, (o, fp) in d.items()}
                                                                       for w, d in s["hook"].items()}] for s in sessions])
@@ -479,6 +506,8 @@ class Spec(core.PropSpec):
                 parts.append("multiview(" + ";".join(f"{c['n']}x{C.sig(c['transform'])}" for c in l["configs"]) + ")")
             else:
                 parts.append(l["t"])
+        if stack.get("hook_fault"):
+            parts.append(f"xtw(FaultyHook[{stack['hook_fault']}])")
         return "<".join(parts) + (f" in {stack['container']}" if stack["container"] else "")
 
     def extra_evidence(self, tier, seed):
